@@ -544,18 +544,147 @@ def run_foreign(shard):
     return acc
 
 
+def run_mixed_files(shard):
+    """files whose records differ in size and in having metadata: every ordered selection of 3 of 6 records (small/large x no / short / long metadata, molecules and reactions)
+    written to one file; sequential reading returns every record with exactly its own metadata; indexed reading equals sequential"""
+    from chython import smiles, files
+    acc = Acc()
+    d = tempfile.mkdtemp(prefix='vf_c11m_')
+    try:
+        base = [('small-nometa', 'CO', {}), ('large-nometa', 'CC(C)Cc1ccc(cc1)C(C)C(=O)O', {}), ('small-meta', 'CN', {'k': 'v'}), ('large-meta', 'OC(=O)c1ccccc1OC(C)=O', {'a': '1', 'bb': 'two words'}),
+                ('small-longmeta', 'CC', {'x%d' % i: 'value %d' % i for i in range(8)}), ('large-longmeta', 'CCCCCCCCCCCCCCCCCC(=O)O', {'long': 'l1\nl2\nl3'})]
+        recs = {}
+        for name, s, meta in base:
+            m = smiles(s)
+            m.meta.update(meta)
+            m.name = name
+            recs[name] = m
+        from chython import ReactionContainer
+        rx = ReactionContainer([smiles('CCO')], [smiles('CC=O')])
+        rx.name = 'rxn-nometa'
+        rx2 = ReactionContainer([smiles('CCBr'), smiles('O')], [smiles('CCO'), smiles('Br')], meta={'yield': '90'})
+        rx2.name = 'rxn-meta'
+        for fmt, wcls, rcls, ext, extra in (('SDF', files.SDFWrite, files.SDFRead, 'sdf', []), ('ESDF', files.ESDFWrite, files.SDFRead, 'sdf', []),
+                                            ('RDF', files.RDFWrite, files.RDFRead, 'rdf', [rx, rx2]), ('ERDF', files.ERDFWrite, files.RDFRead, 'rdf', [rx, rx2])):
+            pool = list(recs.values()) + extra
+            for combo in itertools.permutations(range(len(pool)), 3):
+                acc.states += 1
+                acc.transitions += 2
+                seq_in = [pool[i] for i in combo]
+                tag = '%s | %s' % (fmt, ' , '.join(x.name for x in seq_in))
+                p = os.path.join(d, 'm.%s' % ext)
+                try:
+                    with wcls(p) as w:
+                        for x in seq_in:
+                            w.write(x)
+                    got = list(rcls(p))
+                except Exception as e:
+                    acc.fail('mixed file raised %s :: %s' % (type(e).__name__, fmt), case=tag)
+                    continue
+                if len(got) != 3:
+                    acc.fail('record lost in a mixed file :: %s' % fmt, case=tag, got=len(got))
+                    continue
+                ok = True
+                for a, b in zip(seq_in, got):
+                    if type(a).__name__ != type(b).__name__ or str(a) != str(b):
+                        acc.fail('record of a mixed file read as a different structure :: %s' % fmt, case=tag, got=str(b), expected=str(a))
+                        ok = False
+                        break
+                    ma = {k: norm_meta(v) for k, v in a.meta.items()}
+                    mb = {k: norm_meta(v) for k, v in b.meta.items() if not k.startswith('chython_') or k == 'chython_unparsed_metadata'}
+                    if ma != mb:
+                        acc.fail('metadata of a record in a mixed file differs (own metadata lost or foreign lines attached) :: %s' % fmt, case=tag, got=mb, expected=ma)
+                        ok = False
+                        break
+                if not ok:
+                    continue
+                if combo[0] < combo[1]:   # indexed access on a subset (index building is the slow part)
+                    try:
+                        r = rcls(p, indexable=True)
+                        r.reset_index()
+                        for i in (2, 0, 1, -1):
+                            x = r[i]
+                            j = i % 3
+                            if str(x) != str(got[j]) or {k: norm_meta(v) for k, v in x.meta.items()} != {k: norm_meta(v) for k, v in got[j].meta.items()}:
+                                acc.fail('indexed record differs from sequential reading in a mixed file :: %s' % fmt, case=tag, index=i)
+                                break
+                        cp = r._cache_path
+                        r.close()
+                        if os.path.exists(cp):
+                            os.remove(cp)
+                    except Exception as e:
+                        acc.fail('indexed access raised %s in a mixed file :: %s' % (type(e).__name__, fmt), case=tag)
+                acc.outcomes[fmt] += 1
+    finally:
+        shutil.rmtree(d, ignore_errors=True)
+    acc.sample({'records': [b[0] for b in base] + ['rxn-nometa', 'rxn-meta'], 'files': 'every ordered selection of 3'})
+    return acc
+
+
+def run_wrapped_v3000(shard):
+    """V3000 continuation lines (a line ending in '-' continues on the next 'M  V30 ' line), as other programs write long lines: every atom, bond and counts line of
+    three records wrapped at every column must be read as the unwrapped record (atom and bond lines)"""
+    from chython import smiles, files
+    acc = Acc()
+    mols = []
+    for s in ('[13CH3][N+](C)(C)CC([O-])=O', 'C[C@H](N)C(=O)O', 'Clc1ccc(Br)cc1'):
+        m = smiles(s)
+        if '@' in s:
+            layout(m)
+        m.name = 'w'
+        mols.append(m)
+    for m in mols:
+        text = write_records('ESDF', [m])
+        ref = read_records('ESDF', text)
+        if len(ref) != 1:
+            acc.fail('own V3000 record not readable', case=str(m))
+            continue
+        lines = text.split('\n')
+        for li, line in enumerate(lines):
+            if not line.startswith('M  V30 ') or 'BEGIN' in line or 'END' in line:
+                continue
+            if 'COUNTS' in line:
+                acc.ood['counts line (always short; no program wraps it)'] += 1
+                continue
+            body = line[7:]
+            for col in range(1, len(body)):
+                acc.states += 1
+                acc.transitions += 1
+                wrapped = lines[:li] + ['M  V30 ' + body[:col] + '-', 'M  V30 ' + body[col:]] + lines[li + 1:]
+                tag = 'line %r wrapped at column %d' % (line, col)
+                try:
+                    got = read_records('ESDF', '\n'.join(wrapped))
+                except Exception as e:
+                    acc.fail('wrapped V3000 line raised %s' % type(e).__name__, case=tag)
+                    continue
+                if len(got) != 1:
+                    acc.fail('record with a wrapped V3000 line is skipped', case=tag, where='before a blank' if body[col] == ' ' else ('after a blank' if body[col - 1] == ' ' else 'inside a field'))
+                    continue
+                if str(got[0]) != str(ref[0]) or atom_rec(got[0]) != atom_rec(ref[0]):
+                    acc.fail('record with a wrapped V3000 line is read differently', case=tag, got=str(got[0]), expected=str(ref[0]))
+                acc.outcomes['wrapped'] += 1
+    acc.sample({'records': [str(m) for m in mols], 'wraps': 'every column of every atom / bond / counts line'})
+    return acc
+
+
 def plan(tier, seed):
     return [Stage('molecule round trips', run_roundtrip, [(k, 32, tier) for k in range(32)], 'D(<=4,1) Kekule + charge -4..4 + element x isotope + radicals/orders/numbers + stereo molecules with 2D layout x {SDF, ESDF, RDF, ERDF, MRV} x mapping on/off'),
             Stage('reaction round trips', run_reactions, [0], 'role counts {0,1,2}^3 x {RDF, ERDF, MRV}'),
             Stage('titles and metadata', run_metadata, [0], 'all strings of length <=3 over 8 characters as value / key / title x 4 formats'),
             Stage('damaged records', run_corruption, [0], '4-record SDF and V3000-SDF files x every corruption kind at every position'),
             Stage('random access', run_index, [0], 'indexable SDF / V3000-SDF / RDF files on disk: every index, negative indices, slices vs sequential'),
-            Stage('records of other programs', run_foreign, [(k, 16, tier) for k in range(16)], 'RDKit-written V2000 and V3000 blocks of the corpus stride and stereo family; every file under /repo/test')]
+            Stage('records of other programs', run_foreign, [(k, 16, tier) for k in range(16)], 'RDKit-written V2000 and V3000 blocks of the corpus stride and stereo family; every file under /repo/test'),
+            Stage('mixed files', run_mixed_files, [0], 'every ordered selection of 3 of 6-8 records (small/large x no/short/long metadata, molecules and reactions) per file x {SDF, ESDF, RDF, ERDF}: own metadata only, indexed = sequential'),
+            Stage('wrapped V3000 lines', run_wrapped_v3000, [0], 'every atom and bond line of 3 records wrapped with the V3000 continuation mark at every column')]
 
 
 def replay(rec):
     key = rec['key']
-    if 'metadata' in key or 'title' in key and 'special' in key:
+    if 'mixed file' in key:
+        accs = [run_mixed_files(0)]
+    elif 'wrapped V3000' in key:
+        accs = [run_wrapped_v3000(0)]
+    elif 'metadata' in key or 'title' in key and 'special' in key:
         accs = [run_metadata(0), run_roundtrip((0, 1, 'quick'))]
     elif 'damaged' in key or 'undamaged' in key or 'uncorrupted' in key:
         accs = [run_corruption(0)]
